@@ -99,6 +99,18 @@ class EnvAddr(Env[_ipa.IPv4Address]):
     pass
 
 @dataclass
+class Env1(Generic[GT], DataClassDictMixin):
+    payload: GT
+
+@dataclass
+class Env1Status(Env1[http.HTTPStatus]):
+    pass
+
+@dataclass
+class Env1Path(Env1[PurePosixPath]):
+    extra: int = 0
+
+@dataclass
 class TwoEnums(DataClassDictMixin):
     x: E1
     y: E2
@@ -130,7 +142,7 @@ TYPES = [
     ("list_made", "List[MadeDC]"), ("local_dc", "LD"), ("mproxy", "MappingProxyType[str, LE]"),
     ("ddict_local", "DefaultDict[str, LD]"), ("ddict_enum", "DefaultDict[str, LE]"), ("opt_local", "Optional[LD]"),
     ("lit_local_enum", "Literal[LE.X]"), ("dict_enum_key", "Dict[E1, E2]"), ("mproxy_int", "MappingProxyType[str, int]"),
-    ("env_status", "EnvStatus"), ("env_addr", "EnvAddr"), ("env_generic", "Env[http.HTTPStatus]"),
+    ("env_status", "EnvStatus"), ("env_addr", "EnvAddr"), ("env1_status", "Env1Status"), ("env1_path", "Env1Path"), ("env_generic", "Env[http.HTTPStatus]"),
     ("odict_made", "OrderedDict[str, MadeDC]"), ("counter", "Counter[str]"), ("chain_fn", "ChainMap[str, FnEnumVar]"),
 ]
 
